@@ -210,10 +210,15 @@ class Model:
             raise Unsupported(f"regex node {t}")
 
     # -- matching ------------------------------------------------------------
-    def match_at(self, s: SymStr, pos: int, endpos: int):
-        """Return end offset of the match anchored at pos, or None."""
+    def match_at(self, s: SymStr, pos: int, endpos: int, groups: dict | None = None):
+        """Return end offset of the match anchored at pos, or None.
+
+        When `groups` is given it is filled with {group number: (start, end)} of the
+        capture groups that took part in the successful match.
+        """
         eng = symx.engine()
         ch = s.ch
+        cur: dict = {}
 
         def m(node, i, k):
             t = type(node).__name__
@@ -279,7 +284,22 @@ class Model:
                     return k(i)
                 return None
             if t == "Group":
-                return m(node.subpattern, i, k)
+                g = getattr(node, "group", None)
+                if g is None:
+                    return m(node.subpattern, i, k)
+
+                def after_group(i2, g=g, i=i):
+                    prev = cur.get(g)
+                    cur[g] = (i, i2)
+                    r = k(i2)
+                    if r is None:
+                        if prev is None:
+                            cur.pop(g, None)
+                        else:
+                            cur[g] = prev
+                    return r
+
+                return m(node.subpattern, i, after_group)
             if t == "Atomic":
                 r = m(node.subpattern, i, lambda i2: i2)
                 return None if r is None else k(r)
@@ -303,37 +323,44 @@ class Model:
                 return k(i + len(chars))
             raise Unsupported(f"regex node {t}")
 
-        return m(self.root, pos, lambda i: i)
+        def done(i):
+            if groups is not None:
+                groups.clear()
+                groups.update(cur)
+            return i
+
+        return m(self.root, pos, done)
 
 
 class MatchProxy:
-    __slots__ = ("s", "_start", "_end", "re", "pos", "endpos")
+    __slots__ = ("s", "_start", "_end", "re", "groups")
 
-    def __init__(self, s, start, end, rx):
+    def __init__(self, s, start, end, rx, groups=None):
         self.s, self._start, self._end, self.re = s, start, end, rx
+        self.groups = groups or {}
+
+    def _span(self, g):
+        if g == 0:
+            return (self._start, self._end)
+        if isinstance(g, int):
+            return self.groups.get(g, (-1, -1))
+        raise Unsupported("named capture groups")
 
     def start(self, g=0):
-        self._g(g)
-        return self._start
+        return self._span(g)[0]
 
     def end(self, g=0):
-        self._g(g)
-        return self._end
+        return self._span(g)[1]
 
     def span(self, g=0):
-        self._g(g)
-        return (self._start, self._end)
+        return self._span(g)
 
     def group(self, g=0):
-        self._g(g)
-        return self.s[self._start : self._end]
+        a, b = self._span(g)
+        return None if a < 0 else self.s[a:b]
 
     def __getitem__(self, g):
         return self.group(g)
-
-    def _g(self, g):
-        if g != 0:
-            raise Unsupported("capture groups")
 
     def __bool__(self):
         return True
@@ -392,8 +419,9 @@ class PatternProxy:
         endpos = n if endpos is None else min(endpos, n)
         if pos > n:
             return None
-        e = self._model().match_at(s, pos, endpos)
-        return None if e is None else MatchProxy(s, pos, e, self)
+        groups: dict = {}
+        e = self._model().match_at(s, pos, endpos, groups)
+        return None if e is None else MatchProxy(s, pos, e, self, groups)
 
     def fullmatch(self, s, pos=0, endpos=None):
         if isinstance(s, str):
@@ -410,9 +438,10 @@ class PatternProxy:
         endpos = n if endpos is None else min(endpos, n)
         mdl = self._model()
         for p in range(pos, endpos + 1):
-            e = mdl.match_at(s, p, endpos)
+            groups: dict = {}
+            e = mdl.match_at(s, p, endpos, groups)
             if e is not None:
-                return MatchProxy(s, p, e, self)
+                return MatchProxy(s, p, e, self, groups)
         return None
 
     def __getattr__(self, name):
